@@ -90,6 +90,19 @@ Fixpoint oprune (t : otree) : list otree :=
       end
   end.
 
+(* per played waveform (in play order): is one of the repetition counts on the path from the root marked volatile?
+   This is invariant under merging single children / removing empty loops, so it states "exactly the counts that
+   depend on volatile parameters are marked" for cleaned-up programs too *)
+Fixpoint oleafmarks (anc : bool) (t : otree) : list bool :=
+  match t with
+  | ONode _ v w ch =>
+      let a := anc || match v with Some _ => true | None => false end in
+      match ch with
+      | [] => match w with Some _ => [a] | None => [] end
+      | _ => flat_map (oleafmarks a) ch
+      end
+  end.
+
 Fixpoint list_N_eqb (a b : list N) : bool :=
   match a, b with
   | [], [] => true
